@@ -370,7 +370,8 @@ fn record_to_schema(record: Record) -> schema::kademlia::Record {
             .map(|expires| {
                 let now = Instant::now();
                 if expires > now {
-                    u32::try_from((expires - now).as_secs()).unwrap_or(u32::MAX)
+                    // less than a second left must not become 0, which means "does not expire"
+                    u32::try_from((expires - now).as_secs()).unwrap_or(u32::MAX).max(1)
                 } else {
                     1 // because 0 means "does not expire"
                 }
